@@ -2,6 +2,7 @@ CONSTANTS
   MaxLen = 3
   Goals = {1, 2}
   KeepAssertedBinding = TRUE
+  ProtectCarriers = TRUE
   NoXfail = FALSE
 SPECIFICATION Spec
 INVARIANT KeepAsserts
